@@ -423,6 +423,12 @@ def r_keys(model, rep):
     hcx = facts.fctx(model, h)
     st = [ev for ev in hcx.events if ev.kind == "store" and ev.value == ("const", "")]
     keys = sorted(ev.target[2][1] for ev in st if ev.target[0] == "sub" and ev.target[2][0] == "const")
+    if keys != ["context", "version"]:
+        # the same thing asked of the match object: groupdict(default="") (every group that did not take part reads '')
+        rets_h = [ev for ev in hcx.events if ev.kind == "return" and ev.value != ("const", None)]
+        if rets_h and all(ev.value[0] == "call" and ev.value[1][0] == "attr" and ev.value[1][2] == "groupdict"
+                          and (ev.value[2] == (("const", ""),) or ev.value[3] == (("default", ("const", "")),)) for ev in rets_h):
+            keys = ["context", "version"]
     rep.ob("R-KEYS", "Modules.parse_uid:missing-parts-empty", keys == ["context", "version"], site=hcx.site(h.node),
            msg="" if keys == ["context", "version"] else "missing version/context must be returned as ''")
     # ---- ExtraFiles.add -------------------------------------------------------------------------------
